@@ -67,6 +67,8 @@ pub struct Tx {
     pub height: u64,
     pub time: u64,
     pub msg: Msg,
+    /// index of the sub-call that is made to fail (fault mode); `None` = plain execution
+    pub fault: Option<u64>,
 }
 
 pub struct TxResult {
@@ -76,6 +78,10 @@ pub struct TxResult {
     pub err: String,
     /// `action` attributes of the engine's wasm events (statistics only)
     pub actions: Vec<String>,
+    /// the armed fault was reached
+    pub fired: bool,
+    /// number of interceptable sub-calls the execution made (wrapped-contract executes + contract bank sends)
+    pub subcalls: u64,
 }
 
 fn o<T: ToString>(x: &Option<T>) -> String {
@@ -156,6 +162,26 @@ impl Msg {
         }
     }
 
+    /// first fault index worth arming: 0 when the top-level target is the (unwrapped) engine, 1 for the
+    /// wrapped insurance fund / fee pool whose own top-level execute takes index 0; `None` = never armed
+    pub fn fault_start(&self) -> Option<u64> {
+        match self {
+            Msg::Open { .. }
+            | Msg::Close { .. }
+            | Msg::Liq { .. }
+            | Msg::PayFunding { .. }
+            | Msg::Deposit { .. }
+            | Msg::Withdraw { .. }
+            | Msg::ECfg { .. }
+            | Msg::EPauser { .. }
+            | Msg::WlAdd { .. }
+            | Msg::WlRm { .. }
+            | Msg::Pause { .. } => Some(0),
+            Msg::IfShutdown | Msg::IfWithdraw { .. } | Msg::FpSend { .. } => Some(1),
+            _ => None,
+        }
+    }
+
     /// (vamm id, trader id) the message is about, if any — used to choose the QRY pair
     pub fn subject(&self, snd: u64) -> Option<(u64, u64)> {
         match self {
@@ -188,7 +214,10 @@ pub fn tx_line(h: u64, tx: &Tx, r: &TxResult) -> String {
     } else {
         r.xf.iter().map(|(a, b, c)| format!("{}:{}:{}", a, b, c)).collect::<Vec<_>>().join(";")
     };
-    format!("{} ok={} xf={} err={}", tx.head(h), r.ok as u8, xf, r.err)
+    match tx.fault {
+        Some(j) => format!("{} fault={} fired={} ok={} xf={} err={}", tx.head(h), j, r.fired as u8, r.ok as u8, xf, r.err),
+        None => format!("{} ok={} xf={} err={}", tx.head(h), r.ok as u8, xf, r.err),
+    }
 }
 
 pub fn parse_tx(line: &str) -> Option<Tx> {
@@ -265,7 +294,11 @@ pub fn parse_tx(line: &str) -> Option<Tx> {
         "bsend" => Msg::BSend { to: id("to")?, amt: u("amt")? },
         _ => return None,
     };
-    Some(Tx { k: id("k")?, snd: id("snd")?, funds: u("funds")?, extra: id("extra")? == 1, height: id("height")?, time: id("time")?, msg })
+    let fault = match m.get("fault") {
+        Some(t) if *t != "none" => Some(t.parse::<u64>().ok()?),
+        _ => None,
+    };
+    Some(Tx { k: id("k")?, snd: id("snd")?, funds: u("funds")?, extra: id("extra")? == 1, height: id("height")?, time: id("time")?, msg, fault })
 }
 
 fn dir(d: u64) -> vamm::Direction {
@@ -476,18 +509,35 @@ impl World {
             Action::Wasm { contract, msg } => (CosmosMsg::Wasm(WasmMsg::Execute { contract_addr: contract.clone(), msg, funds }), Some(contract)),
             Action::Bank { to, amount } => (CosmosMsg::Bank(BankMsg::Send { to_address: to, amount: vec![Coin::new(amount, "uwasm")] }), None),
         };
+        {
+            let mut c = self.ctl.lock().unwrap();
+            c.counter = 0;
+            c.fired = false;
+            c.armed = tx.fault;
+        }
         let app = &mut self.app;
         let res = catch_unwind(AssertUnwindSafe(|| app.execute(sender, cmsg)));
+        let (fired, subcalls) = {
+            // a panic while the lock is held cannot happen (hit() does not panic), but be lenient
+            let mut c = match self.ctl.lock() {
+                Ok(g) => g,
+                Err(p) => p.into_inner(),
+            };
+            c.armed = None;
+            (c.fired, c.counter)
+        };
         match res {
-            Err(_) => TxResult { ok: false, panicked: true, xf: vec![], err: "panic".to_string(), actions: vec![] },
-            Ok(Err(e)) => TxResult { ok: false, panicked: false, xf: vec![], err: err_tag(&format!("{}", e.root_cause())), actions: vec![] },
+            Err(_) => TxResult { ok: false, panicked: true, xf: vec![], err: "panic".to_string(), actions: vec![], fired, subcalls },
+            Ok(Err(e)) => {
+                TxResult { ok: false, panicked: false, xf: vec![], err: err_tag(&format!("{}", e.root_cause())), actions: vec![], fired, subcalls }
+            }
             Ok(Ok(resp)) => {
                 let (mut xf, actions) = self.transfers(&resp);
                 if let (Some(t), true, true) = (&target, tx.funds > 0, self.token.is_none()) {
                     // cw-multi-test drops the event of the attached-funds transfer; it happened first
                     xf.insert(0, (tx.snd, self.id(t), tx.funds));
                 }
-                TxResult { ok: true, panicked: false, xf, err: "-".to_string(), actions }
+                TxResult { ok: true, panicked: false, xf, err: "-".to_string(), actions, fired, subcalls }
             }
         }
     }
